@@ -113,7 +113,7 @@ func (e *Exec) isSpaceRune(r Int) Bool {
 	if r.S == nil {
 		return cb(unicode.IsSpace(rune(r.C)))
 	}
-	_, hi, ok := r.ival()
+	_, hi, ok := e.ival(r)
 	if !ok || hi >= 0x80 {
 		if !e.branch(e.intCmp(token.LSS, r, Int{W: r.W, Sg: r.Sg, C: 0x80})) {
 			v := e.concretize(r)
@@ -334,6 +334,30 @@ func (e *Exec) atoi(s Str, bitSize int) (Int, bool) {
 			return ci(0), false
 		}
 		d := e.intBin(token.SUB, e.intConv(b, 64, true), ci('0'))
+		// identity: the complete digit sequence of X (as produced by the decimal rendering model) reads back as X
+		if acc.S == nil && acc.C == 0 && d.S != nil && d.S.DigOf != nil && d.S.DigK == d.S.DigN-1 && n-i == d.S.DigN {
+			whole := d.S.DigOf
+			ok := true
+			for k := 1; k < d.S.DigN; k++ {
+				bk := s.At(i + k)
+				if bk.S == nil {
+					ok = false
+					break
+				}
+				dk := e.intBin(token.SUB, e.intConv(bk, 64, true), ci('0'))
+				if dk.S == nil || dk.S.DigOf == nil || dk.S.DigOf.Name != whole.Name || dk.S.DigK != d.S.DigN-1-k || dk.S.DigN != d.S.DigN {
+					ok = false
+					break
+				}
+			}
+			if ok {
+				wt := *whole
+				acc = Int{W: 64, Sg: true, S: &wt}
+				e.digitIdent++
+				i = n
+				break
+			}
+		}
 		acc = e.intBin(token.ADD, e.intBin(token.MUL, acc, ci(10)), d)
 	}
 	if neg {
@@ -359,7 +383,7 @@ func (e *Exec) itoa(x Int) Str {
 	x = e.intConv(x, 64, x.Sg)
 	neg := false
 	if x.Sg {
-		lo, _, ok := x.ival()
+		lo, _, ok := e.ival(x)
 		if !ok || lo < 0 {
 			if e.branch(e.intCmp(token.LSS, x, ci(0))) {
 				neg = true
@@ -383,7 +407,7 @@ func (e *Exec) itoa(x Int) Str {
 	// in BV mode work at the narrowest width that holds the value: division is expensive
 	w := uint8(64)
 	if e.mode == ModeBV {
-		_, hi, ok := x.ival()
+		_, hi, ok := e.ival(x)
 		if ok {
 			switch {
 			case hi < 1<<7:
@@ -400,8 +424,15 @@ func (e *Exec) itoa(x Int) Str {
 		y = e.intConv(x, 64, true)
 	}
 	ten := Int{W: y.W, Sg: y.Sg, C: 10}
+	whole := x.S
 	for k := nd - 1; k >= 0; k-- {
 		d := e.intBin(token.REM, y, ten)
+		if d.S != nil && e.mode == ModeINT && whole != nil {
+			nt := *d.S
+			nt.DigOf, nt.DigK, nt.DigN = whole, nd-1-k, nd
+			nt.Base, nt.Off = nil, 0
+			d.S = &nt
+		}
 		digits[k] = e.intBin(token.ADD, e.intConv(d, 8, false), byteC('0'))
 		if k > 0 {
 			y = e.intBin(token.QUO, y, ten)
